@@ -149,13 +149,20 @@ pub fn cheap_operators(f: &F) -> F {
     }
 }
 
-/// A closed plain formula over the model's variables with at most one state variable.
-pub fn bundled_formula(raw: &RawF, bn: &BooleanNetwork) -> F {
+/// Models on which formulae with a state variable (one extra copy of every network variable) are
+/// affordable; on the others only quantifier-free formulae are used (measured: a single bind over
+/// EF on 115_35v or tacas3, or a generic `!{x}: AG EF ~~{x}` on the 21-variable cell_cycle_2016, runs
+/// for many minutes up to hours).
+pub const HYBRID_OK_ON: [usize; 3] = [0, 2, 4];
+
+/// A closed plain formula over the model's variables with at most one state variable
+/// (none if `allow_hybrid` is false).
+pub fn bundled_formula(raw: &RawF, bn: &BooleanNetwork, allow_hybrid: bool) -> F {
     let props: Vec<String> = bn.variables().map(|v| bn.get_variable_name(v).clone()).collect();
     let env = FEnv {
         props: &props,
         labels: &[],
-        cfg: FCfg { max_quant_depth: 1, ..FCfg::PLAIN },
+        cfg: FCfg { max_quant_depth: usize::from(allow_hybrid), patterns: allow_hybrid, ..FCfg::PLAIN },
         binders: &crate::gen::BINDERS,
     };
     cheap_operators(&crate::gen::resolve_f(raw, &env))
